@@ -146,12 +146,18 @@ func genC14(rt *rapid.T) c14Case {
 	n := rapid.IntRange(1, 12).Draw(rt, "n")
 	c := c14Case{}
 	idx := 0
+	// kernel timestamps may lie in the future relative to the daemon's clock
+	// (clock skew between hosts, replayed logs)
+	tsBase := 0
+	if rapid.IntRange(0, 3).Draw(rt, "future") == 0 {
+		tsBase = 400000000000 // about 12.7 years after evBase
+	}
 	mk := func(typ, ses, pid string) audEvent {
 		idx++
-		return buildAudEvent(typ, idx, 5000+idx, genAudFields(rt, typ, ses, pid))
+		return buildAudEvent(typ, tsBase+idx, 5000+idx, genAudFields(rt, typ, ses, pid))
 	}
 	c.Events = append(c.Events, mk("LOGIN", sesString(1), strconv.Itoa(pidValue(1))))
-	types := []string{"SYSCALL", "SYSCALL", "SYSCALL", "USER_START", "USER_END", "CRED_ACQ", "USER_LOGIN", "USER_CMD", "USER_ACCT", "CRED_REFR", "USER_AUTH", "USER_ERR"}
+	types := []string{"SYSCALL", "SYSCALL", "SYSCALL", "AVC_SYSCALL", "USER_START", "USER_END", "CRED_ACQ", "USER_LOGIN", "USER_CMD", "USER_ACCT", "CRED_REFR", "USER_AUTH", "USER_ERR"}
 	for i := 0; i < n; i++ {
 		c.Events = append(c.Events, mk(pick(rt, "typ", types), sesString(1), "900"))
 	}
@@ -294,6 +300,7 @@ func TestC14_Read(t *testing.T) {
 // API level: arbitrary Summary / Args / Result values straight into the tracker.
 type c14APICase struct {
 	Events []c14APIEvent `json:"events"`
+	Future bool          `json:"future"` // record timestamps ahead of the daemon's clock
 }
 
 type c14APIEvent struct {
@@ -310,7 +317,7 @@ type c14APIEvent struct {
 
 func genC14API(rt *rapid.T) c14APICase {
 	n := rapid.IntRange(1, 10).Draw(rt, "n")
-	c := c14APICase{}
+	c := c14APICase{Future: rapid.IntRange(0, 3).Draw(rt, "future") == 0}
 	str := rapid.StringN(0, 12, 40)
 	for i := 0; i < n; i++ {
 		e := c14APIEvent{
@@ -340,8 +347,15 @@ func execC14API(c c14APICase) Outcome {
 		return fail("open: %v", err)
 	}
 	nt := len(c.Events) >= 5
+	tsOf := func(i int) time.Time {
+		if c.Future {
+			return time.Now().Add(3*time.Hour + time.Duration(i)*time.Millisecond).UTC().Truncate(time.Millisecond)
+		}
+		return evTime(10 + i)
+	}
 	for i, e := range c.Events {
-		ae := &aucoalesce.Event{Type: evTypes[e.Type], Session: sesString(1), Timestamp: evTime(10 + i), Result: e.Result}
+		ts := tsOf(i)
+		ae := &aucoalesce.Event{Type: evTypes[e.Type], Session: sesString(1), Timestamp: ts, Result: e.Result}
 		ae.Summary.Action, ae.Summary.How = e.Action, e.How
 		ae.Summary.Object = aucoalesce.Object{Type: e.ObjT, Primary: e.ObjP, Secondary: e.ObjS}
 		ae.Process.Args = e.Args
@@ -354,7 +368,7 @@ func execC14API(c c14APICase) Outcome {
 			return fail("event %d: %d events emitted, want 1", i, len(evs)-before)
 		}
 		got := evs[len(evs)-1]
-		if err := checkRendering(got.Ev, ae, evTime(10+i), sesString(1), e.Result == "success"); err != nil {
+		if err := checkRendering(got.Ev, ae, ts, sesString(1), e.Result == "success"); err != nil {
 			return fail("event %d (%+v): %v; emitted %s", i, e, err, evJSON(got.Ev))
 		}
 		if identityKey(got.Ev) != identityKey(lcopy) {
